@@ -68,6 +68,35 @@ def main(tier):
                     bits = [N.encode_nearest(Fraction(rng.uniform(-2, 2)), dtype) for _ in range(n)]
                     sb = [N.encode_nearest(Fraction(rng.uniform(0.01, 0.1)), dtype) for _ in range(prod(sshape))]
                     acalls.append({"fn": fn, "dtype": dtype, "shape": shape, "bits": bits, "qtype": qt, "axis": axis, "scale_shape": sshape, "scale_bits": sb})
+    # the same tensor OBJECT quantized with several configurations in a row (square shapes: both axes have the same extent):
+    # each result must be the one a fresh tensor holding the same values gives
+    rcalls = []
+    for k, shape in enumerate([[4, 4], [8, 8], [2, 3, 2], [6, 6], [4], [4, 2, 4]]):
+        dtype = ["float32", "float16", "bfloat16"][k % 3]
+        bits = [N.encode_nearest(Fraction(rng.uniform(-2, 2)), dtype) for _ in range(prod(shape))]
+        per0 = prod(shape) // shape[0]
+        for qt in ("qint4", "qint2", "qint8"):
+            gss = [None] if qt == "qint8" else [None] + [g for g in (1, 2, 4, per0) if per0 % g == 0]
+            for gs in gss:
+                for axis in (0, -1, 0, -1):
+                    rcalls.append({"fn": "quantize_weight", "dtype": dtype, "shape": shape, "bits": bits, "qtype": qt, "axis": axis, "group_size": gs, "optimizer": None, "reuse_key": f"{k}"})
+    rres = ck.impl("numq", {"calls": rcalls}, timeout=1200)
+    fres = ck.impl("numq", {"calls": [{k_: v for k_, v in c.items() if k_ != "reuse_key"} for c in rcalls]}, timeout=1200)
+    if not isinstance(rres, dict) and not isinstance(fres, dict):
+        for r, f in zip(rres, fres):
+            keys = ("ok", "exn", "codes", "scale", "zp", "deq", "axis", "group")
+            r["same_as_fresh"] = {k_: r.get(k_) for k_ in keys} == {k_: f.get(k_) for k_ in keys}
+            r["fresh"] = {"axis": f.get("axis"), "group": f.get("group"), "scale_shape": (f.get("scale") or {}).get("shape"), "ok": f.get("ok")}
+    if isinstance(rres, dict):
+        ck.violation("implementation worker crashed (object-reuse stream): " + rres.get("stderr", "")[-300:], {"stderr": rres.get("stderr")})
+    else:
+        for c, r in zip(rcalls, rres):
+            ck.count("stream", "object reuse")
+            cfg = {k_: c[k_] for k_ in ("shape", "qtype", "axis", "group_size", "dtype")}
+            if r.get("same_as_fresh") is False:
+                ck.violation(f"quantize_weight on a tensor object already quantized with another configuration differs from the result on a fresh tensor of the same values: qtype={c['qtype']} axis={c['axis']} group_size={c['group_size']} shape={c['shape']} "
+                             f"(scale shape {r.get('scale', {}).get('shape')} vs {r.get('fresh', {}).get('scale_shape')})", {"config": cfg, "observed": {k_: r.get(k_) for k_ in ("axis", "group")}, "fresh": r.get("fresh")})
+            ck.case(("reuse", tuple(c["shape"]), c["qtype"], c["axis"], c["group_size"]), nontrivial=True)
     ncalls_w = len(calls)
     res = ck.impl("numq", {"calls": calls + acalls}, timeout=2400)
     if isinstance(res, dict):
@@ -105,6 +134,28 @@ def main(tier):
         ck.count("outcome", cls)
         nontrivial = r["ok"] or c["axis"] in (0, -1)
         ck.case((tuple(c["shape"]), c["qtype"], c["axis"], c["group_size"], c["optimizer"]), nontrivial=nontrivial, sample=cfg | {"outcome": cls} if r["ok"] and len(ck.samples) < 3 else None)
+        # the property's own list of unsupported configurations, independent of the model: everything else must be accepted
+        is8_ = N.QINFO[c["qtype"]][1] == 8
+        rank = len(c["shape"])
+        unsupported = []
+        if c["axis"] not in (0, -1):
+            unsupported.append("axis other than first / last")
+        else:
+            per_ = prod(c["shape"]) // c["shape"][c["axis"]]
+            if c["group_size"] is not None and is8_:
+                unsupported.append("group size with an 8-bit type")
+            if c["group_size"] is not None and not is8_ and (c["group_size"] <= 0 or per_ % c["group_size"] != 0):
+                unsupported.append("group size that is not a divisor")
+        if rank == 1 and is8_ and c["axis"] in (0, -1):
+            unsupported.append("per-axis quantization of a 1-D tensor (8-bit)")  # refused by the symmetric quantizer with ValueError, as the model proves
+        if c["optimizer"] is not None and (c["optimizer"] == "absmax") != is8_:
+            unsupported.append("optimizer of the wrong family")
+        if not r["ok"] and r["exn"] == "ValueError" and not unsupported:
+            ck.violation(f"quantize_weight rejected a supported configuration with ValueError: qtype={c['qtype']} axis={c['axis']} group_size={c['group_size']} optimizer={c['optimizer']} shape={c['shape']} ({r.get('msg', '')[:80]})",
+                         {"config": cfg, "exception": r})
+            continue
+        if r["ok"] and unsupported:
+            ck.violation(f"quantize_weight accepted an unsupported configuration ({', '.join(unsupported)}): qtype={c['qtype']} axis={c['axis']} group_size={c['group_size']} optimizer={c['optimizer']} shape={c['shape']}", {"config": cfg})
         if not r["ok"] and r["exn"] != "ValueError":
             ck.violation(f"quantize_weight raised {r['exn']} (not ValueError) for an unsupported configuration: qtype={c['qtype']} axis={c['axis']} group_size={c['group_size']} optimizer={c['optimizer']} shape={c['shape']}", {"config": cfg, "exception": r})
             continue
